@@ -185,11 +185,16 @@ func runGraph(r *common.Rng, out *common.Out, reps int, targets []node, g map[no
 		} else {
 			res = fmtNodes(list)
 		}
+		// BuildList has returned: no callback may still be running.  Take the lock anyway so that a
+		// traversal that returns early (a bug) shows up as a wrong result, not as a crash of the harness.
+		rq.mu.Lock()
 		for m, c := range rq.calls {
 			if c != 1 {
 				res = fmt.Sprintf("MULTICALL %s x%d", m, c)
 			}
 		}
+		events := slices.Clone(rq.events)
+		rq.mu.Unlock()
 		if i == 0 {
 			first = res
 			out.Emit("MVS "+fmtNodes(targets)+" | "+gs, res)
@@ -199,7 +204,7 @@ func runGraph(r *common.Rng, out *common.Out, reps int, targets []node, g map[no
 		}
 		if i == 1 || i == reps-1 {
 			// the trace must be a feasible schedule of the model (graph gi has the same sets)
-			out.Emit("TR "+fmtNodes(targets)+" | "+fmtGraph(gi, order)+" | "+strings.Join(rq.events, " "), "ACCEPT "+res)
+			out.Emit("TR "+fmtNodes(targets)+" | "+fmtGraph(gi, order)+" | "+strings.Join(events, " "), "ACCEPT "+res)
 		}
 	}
 }
